@@ -39,6 +39,7 @@ struct Sim {
     std::unique_ptr<TimeStepper> ts;
     int nextReport = 1;
     double dt = 0.05;
+    bool dead = false;          // an exception ended this simulation (part of its observable trajectory)
     Sim() : matter(system), forces(system) {}
 };
 
@@ -135,18 +136,27 @@ static Sample sampleOf(const Sim& s) {
 }
 // one operation: advance to the next report instant; returns the sample there
 static Sample stepOnce(Sim& s) {
-    s.ts->stepTo(s.dt * s.nextReport);
+    if (!s.dead) {
+        try { s.ts->stepTo(s.dt * s.nextReport); }
+        catch (const std::exception&) { s.dead = true; }     // e.g. Integrator::StepFailed: must happen identically in every run
+    }
     ++s.nextReport;
     Sample v = sampleOf(s);
+    v.push_back(s.dead ? 0xDEADull : 0);
     v.push_back((uint64_t)s.integ->getNumStepsTaken());
     v.push_back((uint64_t)s.integ->getNumStepsAttempted());
     return v;
 }
+// construction failures (e.g. an initial projection that does not converge) are deterministic outcomes too
+static std::unique_ptr<Sim> buildSimSafe(int model, int integ, uint64_t param) {
+    try { return buildSim(model, integ, param); } catch (const std::exception&) { return nullptr; }
+}
+static const Sample kBuildFailed = {0xBADull};
 static std::vector<Sample> runAlone(int model, int integ, uint64_t param, int nOps) {
-    std::unique_ptr<Sim> s = buildSim(model, integ, param);
+    std::unique_ptr<Sim> s = buildSimSafe(model, integ, param);
     std::vector<Sample> out;
-    out.push_back(sampleOf(*s));
-    for (int k = 0; k < nOps; ++k) out.push_back(stepOnce(*s));
+    out.push_back(s ? sampleOf(*s) : kBuildFailed);
+    for (int k = 0; k < nOps; ++k) out.push_back(s ? stepOnce(*s) : kBuildFailed);
     return out;
 }
 static int differing(const std::vector<Sample>& a, const std::vector<Sample>& b) {
@@ -228,8 +238,8 @@ static void doInterleave(const std::vector<int>& sched, const int m[3], const in
     for (int i = 0; i < 3; ++i) alone[i] = runAlone(m[i], k[i], p + i, cnt[i]);
     std::unique_ptr<Sim> sims[3];
     std::vector<Sample> inter[3];
-    for (int i = 0; i < 3; ++i) { sims[i] = buildSim(m[i], k[i], p + i); inter[i].push_back(sampleOf(*sims[i])); }
-    for (int o : sched) inter[o].push_back(stepOnce(*sims[o]));
+    for (int i = 0; i < 3; ++i) { sims[i] = buildSimSafe(m[i], k[i], p + i); inter[i].push_back(sims[i] ? sampleOf(*sims[i]) : kBuildFailed); }
+    for (int o : sched) inter[o].push_back(sims[o] ? stepOnce(*sims[o]) : kBuildFailed);
     int d[3];
     for (int i = 0; i < 3; ++i) d[i] = differing(alone[i], inter[i]);
     std::printf("O interleave %d %d %d %d %d %d\n", (int)inter[0].size() - 1, (int)inter[1].size() - 1, (int)inter[2].size() - 1, d[0] == 0, d[1] == 0, d[2] == 0);
